@@ -119,6 +119,7 @@ def units(tier):
             us.append((name, fn, kw))
     # whole programs: the statement holds wherever a statement stands (repeat body, included / linked file, any block) - contracts/structure.py
     us += structure.units()
+    us += structure.expr_units()
     return us
 
 
